@@ -9,7 +9,6 @@ package solver
 //@   ensures nonneg: result >= 0
 //@   ensures varOf: result / 2 == absi(i) - 1
 //@   ensures sign: (result % 2 == 0) <==> i > 0
-//@   ensures tv: forall(v, forall(w, true)) || true
 
 //@ func (Lit).Int
 //@   requires nonneg: l >= 0
@@ -396,13 +395,88 @@ package solver
 //@   ensures  same:   result == Sat ==> (smodels(s, A) <==> old(smodels(s, A)))
 //@   ensures  flags:  s.Verbose == old(s.Verbose) && s.Certified == old(s.Certified) && s.CertChan == old(s.CertChan) && s.CuttingPlanes == old(s.CuttingPlanes)
 
-// AppendClause: assumed here (its own verification is tracked under C09).
+// what the constraint c is worth under A, and its total weight over the first n literals
+//@ define psumc(c *Clause, A asg) int = ite(c.pbData == nil, psum(c.lits, nil, A, len(c.lits)), psum(c.lits, c.pbData.weights, A, len(c.lits)))
+//@ define wsumc(c *Clause, n int) int = ite(c.pbData == nil, n, wsum(c.pbData.weights, n))
+//@ define cwf(c *Clause) bool = c != nil && !c.Learned() && c.lbdValue < 1073741824 && litsWF(c.lits, 1073741823) && (c.pbData != nil ==> c.pbData.weights != nil && len(c.pbData.weights) == len(c.lits) && forall(k, 0, len(c.lits), c.pbData.weights[k] >= 1) && wsum(c.pbData.weights, len(c.lits)) <= 1073741824)
+
+// propagateUnits: the body is verified for the structural part (bound: every listed unit ends up
+// true at level 1 unless the solver turns Unsat; a unit whose negation is already true at the top
+// level must give Unsat, it may not be overwritten or skipped). The semantic clauses keep / unsat /
+// wf speak about unit propagation, which is not verified: they stay assumptions at call sites
+// (listed as "postcondition written but NOT discharged" in the evidence).
+//@ func lvlToSignedLvl
+//@   requires nonneg: l >= 0
+//@   ensures  def: result == ite(l % 2 == 0, lvl, -lvl)
+
+//@ func (*Solver).litStatus
+//@   requires wf: s != nil && l >= 0 && l / 2 < len(s.model)
+//@   ensures  def: result == ite(s.model[l / 2] == 0, Indet, ite((s.model[l / 2] > 0) == (l % 2 == 0), Sat, Unsat))
+
+//@ func (*lbdStats).addLbd
+//@   trusted
+//@   modifies l.*
+
+//@ func (*Solver).unifyLiteral
+//@   ghost keepl []Lit
+//@   requires wf: s != nil && WFlen(s) && lit >= 0 && lit / 2 < s.nbVars
+//@   instantiate (*Solver).propagate#1 keepl = keepl
+//@   modifies s.model[*], s.reason[*], s.trail, s.trail[*], all Clause.lbdValue, all []Lit, all []int, all []bool, all []watcher, all [][]watcher, all [][]*Clause, all Clause.activity, s.Stats.*, s.lbdStats.*
+//@   ensures  keep:  forall(v, 0, s.nbVars, v != lit / 2 && old(s.model[v]) != 0 ==> s.model[v] == old(s.model[v]))
+//@   ensures  bound: s.model[lit / 2] == ite(lit % 2 == 0, lvl, -lvl) || lvl == 0
+//@   ensures  wf:    WFlen(s) && s.nbVars == old(s.nbVars)
+//@   ensures  trail: grown(s.trail)
+//@   ensures  keepl: arr(keepl) != arr(old(s.trail)) ==> forall(k, 0, len(keepl), keepl[k] == old(keepl[k]))
+
+//@ func (*Solver).propagateUnits
+//@   ghost A asg
+//@   requires wf: WFopt(s) && litsWF(units, s.nbVars)
+//@   requires sepu: arr(units) != arr(s.trail)
+//@   instantiate (*Solver).unifyLiteral#1 keepl = units
+//@   modifies s.*, all Clause.lits, all Clause.lbdValue, all Clause.activity, all pbData.weights, all pbData.watched, all []Lit, all []decLevel, all []bool, all []int, all []*Clause, all []watcher, all [][]watcher, all [][]*Clause, all []float64
+//@   ensures  bound: s.status != Unsat ==> forall(k, 0, len(units), s.model[old(units[k]) / 2] == ite(old(units[k]) % 2 == 0, 1, -1))
+//@   ensures  wf:    WFopt(s) && s.nbVars == old(s.nbVars) && sameCost(s)
+//@   ensures  keep:  s.status != Unsat ==> (smodels(s, A) <==> (old(smodels(s, A)) && old(forall(k, 0, len(units), tv(A, units[k])))))
+//@   ensures  unsat: s.status == Unsat && old(s.status) != Unsat ==> !(old(smodels(s, A)) && old(forall(k, 0, len(units), tv(A, units[k]))))
+//@   ensures  sticky: old(s.status) == Unsat ==> s.status == Unsat
+//@   ensures  flags:  s.Verbose == old(s.Verbose) && s.lastModel == old(s.lastModel) && forall(v, 0, len(s.lastModel), s.lastModel[v] == old(s.lastModel[v]))
+//@   loop 1
+//@     invariant idx:   0 <= rangei && rangei <= len(units) && s != nil && WFlen(s) && s.nbVars == old(s.nbVars) && s.status == old(s.status)
+//@     invariant sepu:  arr(units) != arr(s.trail) && forall(k, 0, len(units), units[k] == old(units[k]))
+//@     invariant bound: forall(k, 0, rangei, s.model[old(units[k]) / 2] == ite(old(units[k]) % 2 == 0, 1, -1))
+
+//@ func (*Solver).appendClause
+//@   trusted
+//@   ghost A asg
+//@   requires wf: WFopt(s) && clause != nil && litsWF(clause.lits, s.nbVars)
+//@   modifies s.wl.origClauses, s.wl.origClauses[*], s.wl.wlist[*], s.wl.wlistBin[*], s.wl.wlistPb[*], s.wl.wlistCardAMO[*], clause.lits[*], clause.pbData.weights[*], clause.pbData.watched[*], all []watcher, all []*Clause
+//@   ensures  wf:    WFopt(s)
+//@   ensures  keep:  smodels(s, A) <==> (old(smodels(s, A)) && old(holds(clause, A)))
+
+// AppendClause: TRUSTED at call sites. A full contract (loop invariants below) was drafted but its
+// obligations are not discharged yet, so the body is not verified; DESIGN.md 11.7.
 //@ func (*Solver).AppendClause
 //@   trusted
 //@   ghost A asg
 //@   requires wf:  WFopt(s)
 //@   requires cl:  clause != nil && !clause.Learned() && clause.Cardinality() >= 1
+//#   requires owned: forall(v, 0, s.nbVars, s.reason[v] != clause) && forall(i, 0, len(s.wl.origClauses), s.wl.origClauses[i] != clause && arr(s.wl.origClauses[i].lits) != arr(clause.lits) && (s.wl.origClauses[i].pbData != nil && clause.pbData != nil ==> s.wl.origClauses[i].pbData != clause.pbData && arr(s.wl.origClauses[i].pbData.weights) != arr(clause.pbData.weights)))
 //@   modifies s.*, clause.*, all Clause.lits, all Clause.lbdValue, all pbData.weights, all pbData.watched, all []Lit, all []decLevel, all []bool, all []int, all []*Clause, all []watcher, all [][]watcher, all [][]*Clause, all []float64
+//#   instantiate (*Solver).cleanupBindings#1 keepc = clause
+//#   assert after-call (*Solver).cleanupBindings#1 c1: smodels(s, A) <==> old(smodels(s, A))
+//#   assert after-call (*Solver).cleanupBindings#1 c2: holds(clause, A) <==> old(holds(clause, A))
+//#   loop 1
+//#     modifies s.model, s.activity, s.polarity, s.reason, s.assumptions, s.trailBuf, s.pbSetBuf, s.pbSetBuf2, s.varQueue, s.nbVars, s.model[*], s.activity[*], s.polarity[*], s.reason[*], s.assumptions[*], s.trailBuf[*], s.pbSetBuf[*], s.pbSetBuf2[*], s.wl.wlistBin, s.wl.wlist, s.wl.wlistPb, s.wl.wlistCardAMO, s.wl.wlistBin[*], s.wl.wlist[*], s.wl.wlistPb[*], s.wl.wlistCardAMO[*], clause.lits, clause.lits[*], clause.lbdValue, clause.pbData.weights, clause.pbData.weights[*]
+//#     invariant wf:    s != nil && WFlen(s) && WFsep(s) && WFsepWl(s) && s.nbVars >= entry1(s.nbVars) && s.nbVars <= 1073741824
+//#     invariant own:   grown(s.model) && grown(s.activity) && grown(s.polarity) && grown(s.reason) && grown(s.trailBuf) && grown(s.assumptions) && grown(s.pbSetBuf) && grown(s.pbSetBuf2) && grown(s.wl.wlistBin) && grown(s.wl.wlist) && grown(s.wl.wlistPb) && grown(s.wl.wlistCardAMO)
+//#     invariant cwf:   cwf(clause) && sameArray(clause.lits, entry1(clause.lits)) && (clause.pbData != nil) == entry1(clause.pbData != nil) && (clause.pbData != nil ==> sameArray(clause.pbData.weights, entry1(clause.pbData.weights)))
+//#     invariant idx:   0 <= i && i <= len(clause.lits) && minW >= 0 && card == entry1(clause.Cardinality()) && card >= 1
+//#     invariant l1:    forall(v, 0, s.nbVars, absi(s.model[v]) <= 1)
+//#     invariant mkeep: forall(v, 0, entry1(s.nbVars), s.model[v] == entry1(s.model[v])) && forall(v, entry1(s.nbVars), s.nbVars, s.model[v] == 0)
+//#     invariant kept:  forall(k, 0, i, s.model[clause.lits[k] / 2] == 0)
+//#     invariant sums:  maxW == minW + wsumc(clause, i)
+//#     invariant cardv: clause.Cardinality() == maxi(card - minW, 1)
+//#     invariant sem:   agreesL1(s, A) ==> entry1(psumc(clause, A)) == minW + psumc(clause, A)
 //@   ensures  wf:    WFopt(s) && s.nbVars >= old(s.nbVars) && sameCost(s)
 //@   ensures  keep:  s.status != Unsat ==> (smodels(s, A) <==> (old(smodels(s, A)) && old(holds(clause, A))))
 //@   ensures  unsat: s.status == Unsat && old(s.status) != Unsat ==> !(old(smodels(s, A)) && old(holds(clause, A)))
@@ -617,11 +691,14 @@ package solver
 // (trusted: the trail / queue bookkeeping is not verified).
 //@ func (*Solver).cleanupBindings
 //@   trusted
+//@   ghost keepc *Clause
 //@   requires wf: s != nil && WFlen(s)
-//@   modifies s.model[*], s.reason[*], s.polarity[*], s.trail, s.varQueue, s.trailBuf[*], all Clause.lbdValue, all []int
+//@   modifies s.model[*], s.reason[*], s.polarity[*], s.trail, s.varQueue, s.varQueue.content[*], s.varQueue.indices[*], s.trailBuf[*], all Clause.lbdValue
 //@   ensures  keep:  forall(v, 0, s.nbVars, absi(old(s.model[v])) <= lvl ==> s.model[v] == old(s.model[v]))
 //@   ensures  undo:  forall(v, 0, s.nbVars, absi(old(s.model[v])) > lvl ==> s.model[v] == 0)
 //@   ensures  trail: len(s.trail) <= old(len(s.trail)) && sameArray(s.trail, old(s.trail))
+//@   ensures  keepc: old(forall(v, 0, s.nbVars, s.reason[v] != keepc)) && keepc != nil ==> keepc.lbdValue == old(keepc.lbdValue)
+//@   ensures  cards: forallobj(c, Clause, c.Cardinality() == old(c.Cardinality()) && c.Learned() == old(c.Learned()))
 //@   ensures  wf:    WFlen(s) && WFsep(s) && WFsepWl(s)
 
 // addLearnedUnit binds the literal at level 1 (and reports it when certification is on)
@@ -635,11 +712,14 @@ package solver
 // propagate (trusted): propagation only binds unbound variables; a nil result means no conflict
 //@ func (*Solver).propagate
 //@   trusted
+//@   ghost keepl []Lit
 //@   requires wf: s != nil && WFlen(s)
 //@   modifies s.model[*], s.reason[*], s.trail, s.trail[*], all Clause.lbdValue, all []Lit, all []int, all []bool, all []watcher, all [][]watcher, all [][]*Clause, all Clause.activity, s.Stats.*, s.lbdStats.*
 //@   ensures  keep: forall(v, 0, s.nbVars, old(s.model[v]) != 0 ==> s.model[v] == old(s.model[v]))
 //@   ensures  flags: forall(v, 0, len(s.assumptions), s.assumptions[v] == old(s.assumptions[v]))
 //@   ensures  wf:   WFlen(s)
+//@   ensures  trail: grown(s.trail)
+//@   ensures  keepl: arr(keepl) != arr(old(s.trail)) ==> forall(k, 0, len(keepl), keepl[k] == old(keepl[k]))
 
 // Assume: the previous round's assumptions are dropped, the problem's unit constraints are bound
 // again, exactly the listed variables are flagged, and unless the round is refuted at once every
@@ -726,3 +806,9 @@ package solver
 //@   ensures  len:  len(c.lits) == old(len(c.lits)) - 1 && (c.pbData != nil ==> len(c.pbData.weights) == len(c.lits))
 //@   ensures  moved: idx < len(c.lits) ==> c.lits[idx] == old(c.lits[len(c.lits)-1])
 //@   ensures  rest: forall(k, 0, len(c.lits), k != idx ==> c.lits[k] == old(c.lits[k]))
+
+// updateCardinality(add): the degree becomes max(degree + add, 1) (never below 1)
+//@ func (*Clause).updateCardinality
+//@   requires wf: c != nil && !c.Learned() && c.lbdValue < 1073741824 && -1073741824 <= add && add <= 1073741824 && c.Cardinality() + add <= 1073741824
+//@   modifies c.lbdValue
+//@   ensures  card: c.Cardinality() == maxi(old(c.Cardinality()) + add, 1) && !c.Learned() && c.lbdValue < 1073741824
